@@ -720,6 +720,46 @@ func s9() {
 	k.check()
 	vrt.Observe("how=%d got=%d closer=%d", how, len(got), closerCalls)
 }
+// S10: the transport's Close reports an error although it closes (TLS after a
+// peer reset), or the connection was closed underneath the endpoint (its own
+// Close is then the second one): every handler is still closed exactly once.
+func s10() {
+	how := vrt.ChooseFree(3, "close-error: explicit Close / peer close / closed underneath")
+	a, b := vnet.NewPair("ep", "peer")
+	if how != 2 {
+		a.CloseErr = fmt.Errorf("failed to send closeNotify alert (but connection was closed anyway)")
+	}
+	ep := net.NewEndPoint(a)
+	h := register(ep, "h", matchAllKeep, true)
+	g := register(ep, "g", matchNone, true)
+	vrt.Explore()
+	w1 := vrt.GoWorker("peer", func() {
+		m := frame(4, 2)
+		m.Write(b)
+	})
+	w2 := vrt.GoWorker("ender", func() {
+		switch how {
+		case 0:
+			ep.Close()
+		case 1:
+			b.Close()
+		case 2:
+			a.Close() // e.g. the server's firewall closes the stream itself
+		}
+	})
+	vrt.Quiesce()
+	workersDone(w1, w2)
+	h.check()
+	g.check()
+	if h.closerCalls != 1 || g.closerCalls != 1 {
+		vrt.Failf("closer-count/close-error", "after a shutdown whose transport Close reported an error (variant %d) the closers ran %d and %d times", how, h.closerCalls, g.closerCalls)
+	}
+	ep.Close()
+	vrt.Quiesce()
+	h.check()
+	g.check()
+	vrt.Observe("how=%d recv=%d", how, len(h.received))
+}
 
 func init() {
 	add := func(name string, body func(), q, t int, doc string, must ...string) {
@@ -739,5 +779,6 @@ func init() {
 	add("s7c-blocked-reply-then-close", s7c, 1, 3, "a Call for a full queue is answered on a synchronous pipe nobody reads; then Close()")
 	add("s8-filter-answers", s8, 1, 3, "every filter answer (matched x keep, including self-removal without consuming) on two frames, RemoveHandler after or during the traffic, then Close()")
 	add("s9-addhandler-callback", s9, 1, 3, "AddHandler (callback consumer) || three frames || RemoveHandler or Close(): callback order, closer exactly once")
+	add("s10-close-reports-error", s10, 1, 3, "the transport's Close returns an error (explicit Close / peer close), or the connection is closed underneath the endpoint, while a frame arrives")
 	add("s6-receiveany-close", s6, 2, 99, "ReceiveAny || two frames || Close()")
 }
